@@ -56,6 +56,37 @@ def excluded_lines(filename):
     return ex
 
 
+def eligible_sites(pkgdir):
+    """{relative file: set(line)} of lines inside function bodies of the package at which a fault may be placed."""
+    out = {}
+    for dirpath, _, files in os.walk(pkgdir):
+        for f in sorted(files):
+            if not f.endswith(".py") or f == "libcint.py":
+                continue
+            path = os.path.join(dirpath, f)
+            try:
+                with open(path) as fh, warnings.catch_warnings():
+                    warnings.simplefilter("ignore")
+                    code = compile(fh.read(), path, "exec")
+            except (OSError, SyntaxError):
+                continue
+            lines = set()
+            stack = [c for c in code.co_consts if hasattr(c, "co_lines")]
+            # class bodies are executed at import; only code reachable from functions matters
+            while stack:
+                c = stack.pop()
+                is_class_body = c.co_name != "<lambda>" and "__qualname__" in c.co_names and "__module__" in c.co_names
+                if not is_class_body:
+                    first = c.co_firstlineno
+                    for _, _, ln in c.co_lines():
+                        if ln is not None and ln != first:
+                            lines.add(ln)
+                stack.extend(k for k in c.co_consts if hasattr(k, "co_lines"))
+            lines -= excluded_lines(path)
+            out[os.path.relpath(path, pkgdir)] = lines
+    return out
+
+
 class Tracer:
     """Counts eligible line events; optionally raises at one of them; optionally tracks a dirty flag.
 
